@@ -1138,22 +1138,22 @@ impl<'a> GeneratorState<'a> {
     fn generate_csleep_statement(&mut self, cycles: i32, pos: usize) -> Result<(), Error> {
         match cycles {
             2 => self.sasm_protected(NOP)?,
-            3 => self.asm(
-                STA,
-                &ExprType::Absolute("DUMMY".into(), true, 0),
-                pos,
-                false,
-            )?,
+            3 => {
+                self.protected = true;
+                let ret = self.asm(STA, &ExprType::Absolute("DUMMY".into(), true, 0), pos, false);
+                self.protected = false;
+                ret?
+            }
             4 => {
                 self.sasm_protected(NOP)?;
                 self.sasm_protected(NOP)?
             }
-            5 => self.asm(
-                DEC,
-                &ExprType::Absolute("DUMMY".into(), true, 0),
-                pos,
-                false,
-            )?,
+            5 => {
+                self.protected = true;
+                let ret = self.asm(DEC, &ExprType::Absolute("DUMMY".into(), true, 0), pos, false);
+                self.protected = false;
+                ret?
+            }
             6 => {
                 self.sasm_protected(NOP)?;
                 self.sasm_protected(NOP)?;
@@ -1170,28 +1170,22 @@ impl<'a> GeneratorState<'a> {
                 self.sasm_protected(NOP)?
             }
             9 => {
-                self.asm(
-                    DEC,
-                    &ExprType::Absolute("DUMMY".into(), true, 0),
-                    pos,
-                    false,
-                )?;
+                self.protected = true;
+                let ret = self.asm(DEC, &ExprType::Absolute("DUMMY".into(), true, 0), pos, false);
+                self.protected = false;
+                ret?;
                 self.sasm_protected(NOP)?;
                 self.sasm_protected(NOP)?
             }
             10 => {
-                self.asm(
-                    DEC,
-                    &ExprType::Absolute("DUMMY".into(), true, 0),
-                    pos,
-                    false,
-                )?;
-                self.asm(
-                    DEC,
-                    &ExprType::Absolute("DUMMY".into(), true, 0),
-                    pos,
-                    false,
-                )?
+                self.protected = true;
+                let ret = self.asm(DEC, &ExprType::Absolute("DUMMY".into(), true, 0), pos, false);
+                self.protected = false;
+                ret?;
+                self.protected = true;
+                let ret = self.asm(DEC, &ExprType::Absolute("DUMMY".into(), true, 0), pos, false);
+                self.protected = false;
+                ret?
             }
             _ => {
                 return Err(self
